@@ -6,7 +6,7 @@
    IS the parent waker of that poll, so firing it wakes that parent directly. *)
 From Coq Require Import List Arith Bool.
 Import ListNotations.
-Require Import ScanFull InstsFull Pass ObligJoin ObligMZ ObligGroups FireTotal GhostTrace NonSel C11Groups PassProofs PassC01 C04Join Live C08Merge LiveMerge.
+Require Import ScanFull InstsFull Pass ObligJoin ObligMZ ObligGroups FireTotal GhostTrace NonSel C11Groups PassProofs PassC01 C04Join Live C08Merge LiveMerge LiveZip.
 
 (* ---- selective strategy: in every state reached at or after a poll that returned Pending, a signalled child implies that the
         newest parent waker has been woken (for all sizes, child behaviours, histories of polls / wakes through any handle / drop / group ops) *)
@@ -180,6 +180,21 @@ Theorem C01_merge_next_result_under_wake_driven_executor scs ops B :
             exists u o, tr _ (rnd (S r) w) = tr _ (rnd r w) ++ u ++ [EEndR o].
 Proof. intros He Hp rnd w Hf Hd Hc. exact (merge_next_result scs He Hp (Nat.le_lt_trans _ _ _ (Nat.le_0_l _) Hc) ops B Hf Hd Hc). Qed.
 Print Assumptions C01_merge_next_result_under_wake_driven_executor.
+
+(* zip: after any history, while the zip has not seen an End, has not been dropped and the current row is incomplete (the state between
+   operations of a zip that has returned Pending or a row), the next result - a row or None - arrives within B rounds *)
+Theorem C01_zip_next_result_under_wake_driven_executor scs ops B :
+  (forall i, i < length scs -> ended (nth i scs []) = true) -> (forall m st, In st (nth m scs []) -> answer st <> APanic) ->
+  let rnd := rounds zst z_n z_awaited (fun _ i => i) z_handle false true z_order (fun _ => None) (fun _ => false) z_finish (fun s => s)
+               z_drop m_final (@no_mut zst) in
+  let w := zip_world true scs ops in
+  finished _ w = false -> dropped _ w = false -> z_done (cs _ w) = false -> forallb is_ready (z_pst (cs _ w)) = false ->
+  (forall j, length (nth j (scripts _ w) []) <= B) -> 1 <= B ->
+  exists r, r < B /\ dropped _ (rnd (S r) w) = false /\ g_retpend _ (rnd (S r) w) = false /\
+            (forall r', r' <= r -> finished _ (rnd r' w) = false) /\
+            exists u o, tr _ (rnd (S r) w) = tr _ (rnd r w) ++ u ++ [EEndR o].
+Proof. intros He Hp. exact (zip_next_result scs He Hp ops B). Qed.
+Print Assumptions C01_zip_next_result_under_wake_driven_executor.
 
 (* non-vacuity: a history that reaches a state satisfying all premises of C01_join: child 0 pends, its waker fires after the poll *)
 Example C01_witness :
